@@ -1,6 +1,8 @@
 """Whole-repository benign twins: behaviour-preserving rewrites of every module, on which all rules must stay silent.
 
   reformat       - every module re-emitted by ast.unparse (comments gone, layout and line numbers changed)
+  insert-logging - a debug log call as first statement of every function
+  flip-comparisons - every single comparison of pure operands mirrored (a < b -> b > a)
   rename-locals  - additionally every function-local variable renamed (x -> x_r); parameters, attributes, globals untouched
 """
 
@@ -78,12 +80,46 @@ class _FlipCompare(ast.NodeTransformer):
         return node
 
 
+class _InsertLogging(ast.NodeTransformer):
+    """A debug log call as the first statement of every function (the most common benign edit)."""
+
+    def visit_FunctionDef(self, node: ast.FunctionDef) -> ast.AST:
+        self.generic_visit(node)
+        stmt = ast.parse("logging.getLogger(__name__).debug('enter %s', __name__)").body[0]
+        i = 1 if node.body and isinstance(node.body[0], ast.Expr) and isinstance(node.body[0].value, ast.Constant) and isinstance(node.body[0].value.value, str) else 0
+        node.body.insert(i, stmt)
+        return node
+
+    visit_AsyncFunctionDef = visit_FunctionDef  # type: ignore[assignment]
+
+
+class _InvertIfElse(ast.NodeTransformer):
+    """if c: A else: B  ->  if not c: B else: A   (every if with an else arm, elif chains included)."""
+
+    def visit_If(self, node: ast.If) -> ast.AST:
+        self.generic_visit(node)
+        if node.orelse:
+            t = node.test.operand if isinstance(node.test, ast.UnaryOp) and isinstance(node.test.op, ast.Not) else ast.UnaryOp(op=ast.Not(), operand=node.test)
+            return ast.copy_location(ast.If(test=t, body=node.orelse, orelse=node.body), node)
+        return node
+
+
 def twin_sources(base: Model, kind: str) -> Dict[str, str]:
     out: Dict[str, str] = {}
     for m in base.modules.values():
         tree = ast.parse(m.src)
         if kind == "rename-locals":
             tree = _Renamer().visit(tree)
+            ast.fix_missing_locations(tree)
+        elif kind == "insert-logging":
+            tree = _InsertLogging().visit(tree)
+            j = 0
+            while j < len(tree.body) and (isinstance(tree.body[j], ast.ImportFrom) and tree.body[j].module == "__future__" or isinstance(tree.body[j], ast.Expr) and isinstance(tree.body[j].value, ast.Constant)):
+                j += 1
+            tree.body.insert(j, ast.parse("import logging").body[0])
+            ast.fix_missing_locations(tree)
+        elif kind == "invert-if-else":
+            tree = _InvertIfElse().visit(tree)
             ast.fix_missing_locations(tree)
         elif kind == "flip-comparisons":
             tree = _FlipCompare().visit(tree)
